@@ -650,16 +650,9 @@ impl<'a> Searcher<'a> {
                             let path = entry.path();
                             let pass_ignores = if apply_gitignore || apply_hgignore || apply_dockerignore {
                                 // absolute path of the entry itself: the path as spelled is relative to the
-                                // current directory, which the repository knows nothing about
-                                #[cfg(feature = "git")]
+                                // current directory, which the repository knows nothing about; a link is
+                                // ignored (or not) under its own name, not under the name of its target
                                 let absolute_path = Path::new(&canonical_path).join(entry.file_name());
-                                let mut canonical_path = path.clone();
-
-                                if apply_gitignore || apply_hgignore || apply_dockerignore {
-                                    if let Ok(canonicalized) = crate::util::canonical_path(&path) {
-                                        canonical_path = PathBuf::from(canonicalized);
-                                    }
-                                }
 
                                 // Check the path against the filters
                                 #[cfg(feature = "git")]
@@ -673,12 +666,12 @@ impl<'a> Searcher<'a> {
                                 let pass_hgignore = !apply_hgignore
                                     || !matches_hgignore_filter(
                                     &self.hgignore_filters,
-                                    canonical_path.to_string_lossy().as_ref(),
+                                    absolute_path.to_string_lossy().as_ref(),
                                 );
                                 let pass_dockerignore = !apply_dockerignore
                                     || !matches_dockerignore_filter(
                                     &self.dockerignore_filters,
-                                    canonical_path.to_string_lossy().as_ref(),
+                                    absolute_path.to_string_lossy().as_ref(),
                                 );
 
                                 pass_gitignore && pass_hgignore && pass_dockerignore
